@@ -89,6 +89,11 @@ fn gen_case(c: &mut Chooser) -> Case {
     files.insert("src/case/parts.graphql".into(), "fragment CaseLower on User {\n  name\n}\n".into());
     files.insert("src/Case/extra.graphql".into(), "fragment CaseDir on User {\n  age\n}\n".into());
     files.insert("src/case/extra.graphql".into(), "fragment CaseDir on User {\n  name\n  kind\n}\n".into());
+    // one file importing same-named files from its own directory and from two ancestors: specifiers that differ
+    // only in how far they climb
+    files.insert("src/climb/deep/main.graphql".into(), "#import ClimbNear from \"./frags.graphql\"\n#import ClimbFar from \"../frags.graphql\"\n#import UserBits from \"../../frags.graphql\"\nquery ClimbMain {\n  me { ...ClimbNear ...ClimbFar ...UserBits }\n}\n".into());
+    files.insert("src/climb/deep/frags.graphql".into(), "fragment ClimbNear on User {\n  id\n}\n".into());
+    files.insert("src/climb/frags.graphql".into(), "fragment ClimbFar on User {\n  age\n}\n".into());
     files.insert("src/leaf/c.graphql".into(), "fragment Leaf on User {\n  name\n}\nfragment LeafUnused on User { age }\n".into());
     match c.choose("unicode", 2) {
         0 => {}
